@@ -90,6 +90,7 @@ def check(run, P):
     calls(run, P, "C10.calls")
     _raise(run, P)
     _cycle(run, P)
+    _edges_kept(run, P)
     flag(run, P, "C10.flag")
     _switch(run, P)
 
@@ -282,6 +283,33 @@ def _raise(run, P):
     if not tries:
         run.ob("C10.raise", f, f.node, True, construct="no catch-all around the passes",
                why="exceptions propagate")
+
+
+def _edges_kept(run, P):
+    """The dependency edges a statement is described with reach the verifier
+    unchanged (the cycle check reads <statement>.depends_on)."""
+    f = P.func("dagrt.language.StatementBase.__init__")
+    kw = [x.value for x in ast.walk(f.node) if isinstance(x, ast.keyword) and x.arg == "depends_on"]
+    passed = len(kw) == 1
+    defs = []
+    if passed and isinstance(kw[0], ast.Name):
+        defs = [s_ for s_ in ast.walk(f.node) if isinstance(s_, ast.Assign)
+                and any(dotted(t) == kw[0].id for t in s_.targets)]
+    elif passed:
+        defs = [ast.Assign(targets=[], value=kw[0])]
+    ok = len(defs) == 1
+    shape = norm(defs[0].value, 80) if defs else "?"
+    if ok:
+        v = defs[0].value
+        ok = isinstance(v, ast.Call) and dotted(v.func) in ("frozenset", "set", "tuple") \
+            and len(v.args) == 1 and isinstance(v.args[0], ast.Call) \
+            and dotted(v.args[0].func) in ("kwargs.pop", "kwargs.get") \
+            and v.args[0].args and string_value(v.args[0].args[0]) == "depends_on"
+    run.ob("C10.cycle", f, defs[0] if defs else f.node, ok and passed,
+           construct=f"StatementBase: depends_on = {shape}, stored as given",
+           why="an edge that is normalised away at construction (a statement's "
+               "dependency on itself, say) is invisible to the cycle check, and the "
+               "ill-formed method is accepted")
 
 
 def _cycle(run, P):
